@@ -52,6 +52,7 @@ def parseOp (tok : String) : Option Op :=
   | ["mb", n] => (parseCount n).map .moveBackward
   | ["mf", n] => (parseCount n).map .moveForward
   | ["bs"] => some .moveBufferStart | ["be"] => some .moveBufferEnd
+  | ["mfp"] => some .moveToFirstPrint
   | ["mh"] => some .moveHome | ["me"] => some .moveEnd | ["eoi"] => some .isEndOfInput
   | ["del", n] => (parseCount n).map .delete
   | ["bsp", n] => (parseCount n).map .backspace
